@@ -1152,6 +1152,14 @@ Definition inc2 (m : list (list Z)) (k c d : Z) : option (list (list Z)) :=
 Fixpoint orun {St} (step : St -> call -> option St) (cs : list call) (st : St) : option St :=
   match cs with [] => Some st | c :: r => match step st c with Some st' => orun step r st' | None => None end end.
 
+(* orun is the left fold of the update over the calls, stopping for good when Python would raise *)
+Lemma orun_fold_left {St} (step : St -> call -> option St) cs st :
+  orun step cs st = fold_left (fun o c => match o with Some x => step x c | None => None end) cs (Some st).
+Proof.
+  revert st; induction cs as [|c r IH]; intros st; cbn [orun fold_left]; [reflexivity|].
+  destruct (step st c) as [st'|]; [apply IH|]. clear. induction r as [|c' r IH]; [reflexivity|exact IH].
+Qed.
+
 Lemma orun_sim {St} ps (step : St -> call -> option St) (R : list cell -> St) (wf : list cell -> Prop) :
   (forall v c v', wf v -> bump v (fst (dvec ps c)) (snd (dvec ps c)) = Some v' -> step (R v) c = Some (R v') /\ wf v') ->
   forall cs v v', wf v -> run ps cs v = Some v' -> orun step cs (R v) = Some (R v').
@@ -1945,6 +1953,7 @@ Proof.
   apply (run_many_class_matrix tkex_cf 2 _ _ _ tkex_TInvC); [cbn; lia|exact H].
 Qed.
 
+Print Assumptions orun_fold_left.
 Print Assumptions release_unfold.
 Print Assumptions finish_service_unfold.
 Print Assumptions release_individual_unfold.
